@@ -341,6 +341,36 @@ def generate_code(lean_dir: str):
                "operands it pops; the shape of the rest (int key, PSLiteral value -> add_results) is asserted by the translator -/\n")
     out.append("def T1_PUT_KEYWORD : List UInt8 := [" + ", ".join(str(b) for b in put_kw) + "]\n")
     out.append(f"def T1_PUT_ARITY : Nat := {arity}\n\n")
+    # pdffont.PDFType3Font.__init__: `if len(font_matrix) != N or not all(isinstance(v, (int, float)) ...): font_matrix = [...]`
+    t3 = P.find_function(font, "PDFType3Font.__init__")
+    t3rule = None
+    for node in ast.walk(t3):
+        if isinstance(node, ast.If) and isinstance(node.test, ast.BoolOp) and isinstance(node.test.op, ast.Or) \
+                and len(node.test.values) == 2 and isinstance(node.test.values[0], ast.Compare) \
+                and isinstance(node.test.values[0].ops[0], ast.NotEq) \
+                and isinstance(node.test.values[0].left, ast.Call) and getattr(node.test.values[0].left.func, "id", "") == "len" \
+                and isinstance(node.test.values[0].comparators[0], ast.Constant) \
+                and isinstance(node.test.values[1], ast.UnaryOp) and isinstance(node.test.values[1].op, ast.Not):
+            inner = node.test.values[1].operand
+            types_ok = (isinstance(inner, ast.Call) and getattr(inner.func, "id", "") == "all" and len(inner.args) == 1
+                        and isinstance(inner.args[0], ast.GeneratorExp) and isinstance(inner.args[0].elt, ast.Call)
+                        and getattr(inner.args[0].elt.func, "id", "") == "isinstance"
+                        and isinstance(inner.args[0].elt.args[1], ast.Tuple)
+                        and sorted(getattr(e, "id", "?") for e in inner.args[0].elt.args[1].elts) == ["float", "int"])
+            assigns = [st for st in node.body if isinstance(st, ast.Assign) and isinstance(st.targets[0], ast.Name)
+                       and st.targets[0].id == "font_matrix" and isinstance(st.value, ast.List)]
+            if types_ok and len(assigns) == 1 and not node.orelse and all(
+                    isinstance(e, ast.Constant) and isinstance(e.value, (int, float)) and not isinstance(e.value, bool)
+                    for e in assigns[0].value.elts):
+                t3rule = (node.test.values[0].comparators[0].value, [e.value for e in assigns[0].value.elts])
+    if t3rule is None:
+        raise P.Untranslatable("PDFType3Font.__init__: FontMatrix validation (len != N or not all numbers -> default) not found")
+    from fractions import Fraction as _Fr
+    dm = [_Fr(repr(v)) for v in t3rule[1]]
+    out.append("/-- `PDFType3Font.__init__`: a FontMatrix that is not a list of exactly this many numbers is replaced by the default -/\n")
+    out.append(f"def T3_MATRIX_LEN : Nat := {t3rule[0]}\n")
+    out.append("def T3_DEFAULT_MATRIX : List Rat := [" + ", ".join(
+        (f"({v.numerator} : Rat) / {v.denominator}" if v.denominator != 1 else f"({v.numerator} : Rat)") for v in dm) + "]\n\n")
     out.append("end PdfVerif.Gen.FontCode\n")
     path = os.path.join(lean_dir, "PdfVerif", "Gen", "FontCode.lean")
     P.write_if_changed(path, "".join(out))
